@@ -36,12 +36,12 @@ type KnownFinding struct {
 }
 
 type WorkerViolation struct {
-	Seed      uint64    `json:"seed"`
-	Violation Violation `json:"violation"`
-	Scenario  *Scenario `json:"scenario"`
-	Original  int       `json:"original_steps"`
-	Digest    string    `json:"digest"`
-	ShrinkRuns int      `json:"shrink_runs"`
+	Seed       uint64    `json:"seed"`
+	Violation  Violation `json:"violation"`
+	Scenario   *Scenario `json:"scenario"`
+	Original   int       `json:"original_steps"`
+	Digest     string    `json:"digest"`
+	ShrinkRuns int       `json:"shrink_runs"`
 }
 
 type WorkerOut struct {
@@ -259,15 +259,15 @@ func TestCheck(t *testing.T) {
 
 // ReplayFile is what a VIOLATION line points to.
 type ReplayFile struct {
-	Property  string    `json:"property"`
-	Rule      string    `json:"rule"`
-	Detail    string    `json:"detail"`
-	Seed      uint64    `json:"seed"`
-	RepoTree  string    `json:"repo_tree_hash"`
-	Scenario  *Scenario `json:"scenario"`
-	Digest    string    `json:"digest"`
-	Original  int       `json:"original_steps"`
-	GenTree   string    `json:"generated_tree,omitempty"`
+	Property string    `json:"property"`
+	Rule     string    `json:"rule"`
+	Detail   string    `json:"detail"`
+	Seed     uint64    `json:"seed"`
+	RepoTree string    `json:"repo_tree_hash"`
+	Scenario *Scenario `json:"scenario"`
+	Digest   string    `json:"digest"`
+	Original int       `json:"original_steps"`
+	GenTree  string    `json:"generated_tree,omitempty"`
 }
 
 // TestReplay re-executes a replay file in a fresh process; exit status via HSIM_OUT json.
